@@ -312,22 +312,55 @@ func xLine(c *E2ECase, res *E2EResult, s int) (string, string, bool) {
 			evs = append(evs, fmt.Sprintf("D%d:%d", t, f))
 		}
 	}
-	sg := 0
+	sg := "0"
 	if c.SkipGC {
-		sg = 1
+		sg = "1"
+	}
+	dg := fmt.Sprint(res.DanglingOf[s])
+	// an index without a single referrer (empty, or zero descriptors only) may be ONE manifest
+	// shared with other tags: whether it dangles is not a per-tag notion
+	sharedIdx := false
+	if c.PreIndex[s] != nil {
+		sharedIdx = true
+		for _, k := range c.PreIndex[s] {
+			if k >= 0 {
+				sharedIdx = false
+			}
+		}
+	}
+	for _, pb := range puts {
+		if pb == "e" {
+			sharedIdx = true
+		}
+	}
+	for _, e := range evs {
+		if e == "E" {
+			sharedIdx = true
+		}
+	}
+	for _, e := range res.Events {
+		if _, ok := local[e.Op]; ok && e.Class == "idx-del" && e.Status == 404 {
+			sharedIdx = true
+		}
+	}
+	if c.DistinctPre || sharedIdx {
+		// the annotated pre-existing index never equals a generated one (the model compares
+		// contents): the count of dangling indexes is not compared
+		sg += "d"
+		dg = "*"
 	}
 	// the last token carries the whole end-to-end case (with the recorded schedule) so that a
 	// mismatch on this projected line can be re-run under the oracle (bin/check --replay)
 	rc := c.clone()
 	rc.Decisions = res.Decisions
 	js, _ := json.Marshal(rc)
-	in := fmt.Sprintf("X %d %s %s %s J%s", sg, keyList(c.PreIndex[s]), strings.Join(specs, ","), strings.Join(evs, " "), hex.EncodeToString(js))
+	in := fmt.Sprintf("X %s %s %s %s J%s", sg, keyList(c.PreIndex[s]), strings.Join(specs, ","), strings.Join(evs, " "), hex.EncodeToString(js))
 	// the body of every index PUT (the batch applied to the index that was fetched) is observable too
 	ps := "-"
 	if len(puts) > 0 {
 		ps = strings.Join(puts, ";")
 	}
-	obs := fmt.Sprintf("ACC R %s I %s U %s", strings.Join(rs, ","), keyList(res.IndexTagged[s]), ps)
+	obs := fmt.Sprintf("ACC R %s I %s U %s G %s", strings.Join(rs, ","), keyList(res.IndexTagged[s]), ps, dg)
 	return in, obs, true
 }
 
